@@ -10,16 +10,24 @@ TC = "TECMP::Converter::"
 TH = "TECMP::CmpHeader"
 
 
-def produces_table(fb, fn, produce):
-    """{case value or 'default': produces?} over the switch paths of fn."""
+def produces_table(fb, fn, produce, getter, values):
+    """{enumerator value or 'default': produces?}: for each value of the selector (the header getter
+    `getter`, read directly, through a local or through a helper predicate) some path of fn that is
+    consistent with that value produces.  'default' stands for a value outside the enumeration."""
+    from cmpverif import tables
+    ps = paths.enumerate_paths(fn)
+
+    def selector(n):
+        return n.get("k") == "call" and callee_name(n) == getter
+    if not any(selector(x) for x in fn.nodes()):
+        raise Broken("%s does not read %s" % (fn.name, getter))
     t = {}
-    for p in paths.enumerate_paths(fn):
-        sw = [a for a in p.atoms if a[0] == "switch"]
-        if not sw:
-            continue
-        v = sw[0][2]
-        t[v] = t.get(v, False) or produce(p)
-        t.setdefault("_cases", sw[0][3])
+    other = max(values) + 1
+    while other in values:
+        other += 1
+    for v in list(values) + ["default"]:
+        vv = other if v == "default" else v
+        t[v] = any(produce(p) for p in ps if tables.path_consistent(p, selector, vv, fb))
     return t
 
 
@@ -75,13 +83,17 @@ def run(ctx):
     mt = {e["name"]: e["value"] for e in fb.enum(TH + "::MessageType")["enumerators"]}
 
     def hp_prod(p):
-        return any(callee_name(x) == "std::vector::push_back" for x in p.calls()) or \
-            any(x.get("k") == "call" and x.get("op") == "=" and any(callee_name(y) == TD + "GetInterfacePayload" for y in walk(x)) for _, x in p.elems())
+        # a payload can reach the returned vector: something is pushed, or the returned value is not an empty vector
+        if any(callee_name(x) == "std::vector::push_back" for x in p.calls()):
+            return True
+        v = paths.returned_value(p)
+        return v is not None and not paths.is_null_value(v)
 
     def cp_prod(p):
         v = paths.returned_value(p)
         return v is not None and not paths.is_null_value(v)
-    t1, t2 = produces_table(fb, hp, hp_prod), produces_table(fb, cpk, cp_prod)
+    t1 = produces_table(fb, hp, hp_prod, TH + "::getMessageType", sorted(mt.values()))
+    t2 = produces_table(fb, cpk, cp_prod, TH + "::getMessageType", sorted(mt.values()))
     want = {"cmStatus", "busStatus", "data"}
     for name, val in sorted(mt.items()):
         a = t1.get(val, t1.get("default"))
@@ -99,7 +111,8 @@ def run(ctx):
     dt = {e["name"]: e["value"] for e in fb.enum(TH + "::DataType")["enumerators"]}
 
     gd_prod = cp_prod
-    t3, t4 = produces_table(fb, gd, gd_prod), produces_table(fb, cd, gd_prod)
+    t3 = produces_table(fb, gd, gd_prod, TH + "::getDataType", sorted(dt.values()))
+    t4 = produces_table(fb, cd, gd_prod, TH + "::getDataType", sorted(dt.values()))
     wantd = {"can", "canFd", "lin"}
     for name, val in sorted(dt.items()):
         a = t3.get(val, t3.get("default"))
